@@ -240,6 +240,7 @@ struct St {
     unjudged: u64,
     fb_points: u64,
     fb_data_seen: u64,
+    ext_histories: u64,
     sigs: HashSet<u64>,
     sample: Vec<J>,
 }
@@ -412,6 +413,79 @@ fn sweep(ctx: &Ctx, c: &Conf, st: &mut St, rng: &mut Rng) {
     let _ = fr;
 }
 
+/// The extender is a run-time attachment: installed while a program is already polling a port,
+/// replaced by one with other claims, or changing its claims – every single access goes to the
+/// extender exactly when the one installed *now* claims the port *now*.
+fn extender_history(ctx: &Ctx, is128: bool, st: &mut St, rng: &mut Rng, case: u64) {
+    let mut m = Machine::new(Cfg { sound: false, ..Cfg::of(is128) });
+    let mut rf = RegFile::default();
+    rf.sp = 0xBF00;
+    m.set_regs(&rf);
+    m.set_clock(2000);
+    // an even port with A1=1 (ULA only, so that a write that is not swallowed shows in the border)
+    let p: u16 = ((rng.u8() as u16) << 8) | *rng.pick(&[0xFEu16, 0x7E, 0xF6]);
+    let q: u16 = p ^ 0x0100;
+    let mut claimed = false; // does the installed extender claim p right now?
+    let mut installed = false;
+    let mut hist: Vec<String> = vec![];
+    let mut colour = 1u8;
+    for step in 0..(12 + rng.below(20)) {
+        match rng.below(6) {
+            0 => {
+                let cl = rng.bool();
+                m.emu.set_io_extender(LogExt::new(vec![(0xFFFF, if cl { p } else { q })]));
+                installed = true;
+                claimed = cl;
+                hist.push(format!("set_io_extender(claims {:04x})", if cl { p } else { q }));
+            }
+            1 if installed => {
+                let cl = rng.bool();
+                m.emu.io_extender().unwrap().claims = vec![(0xFFFF, if cl { p } else { q })];
+                claimed = cl;
+                hist.push(format!("extender now claims {:04x}", if cl { p } else { q }));
+            }
+            2 | 3 => {
+                let before = if installed { m.emu.io_extender().unwrap().log.len() } else { 0 };
+                let v = m.inp(p);
+                let after = if installed { m.emu.io_extender().unwrap().log.len() } else { 0 };
+                st.reads += 1;
+                hist.push(format!("IN {:04x} -> {:02x}", p, v));
+                let want_ext = LogExt::new(vec![]).read_value(p);
+                let ok = if claimed { after == before + 1 && v == want_ext } else { after == before && v & 0x1F == 0x1F };
+                if !ok {
+                    ctx.violation(
+                        "port-decode:extender-history:read",
+                        &format!("step {}: IN {:04x} returned {:02x} with {} extender call(s); the installed extender {} the port (history: {})", step, p, v, after - before, if claimed { "claims" } else { "does not claim" }, hist.join("; ")),
+                        jobj! {"case"=>case,"is128"=>is128,"port"=>p},
+                    );
+                    return;
+                }
+            }
+            _ => {
+                colour = (colour + 1 + rng.below(6) as u8) & 7;
+                let b0 = m.emu.border_color() as u8;
+                let before = if installed { m.emu.io_extender().unwrap().log.len() } else { 0 };
+                m.out(p, colour);
+                let after = if installed { m.emu.io_extender().unwrap().log.len() } else { 0 };
+                let b1 = m.emu.border_color() as u8;
+                st.writes += 1;
+                hist.push(format!("OUT {:04x},{:02x}", p, colour));
+                let ok = if claimed { after == before + 1 && b1 == b0 } else { after == before && b1 == colour };
+                if !ok {
+                    ctx.violation(
+                        "port-decode:extender-history:write",
+                        &format!("step {}: OUT {:04x},{:02x}: {} extender call(s), border {} -> {}; the installed extender {} the port (history: {})", step, p, colour, after - before, b0, b1, if claimed { "claims" } else { "does not claim" }, hist.join("; ")),
+                        jobj! {"case"=>case,"is128"=>is128,"port"=>p},
+                    );
+                    return;
+                }
+            }
+        }
+    }
+    st.judged += 1;
+    st.ext_histories += 1;
+}
+
 /// floating bus set oracle
 fn floating(ctx: &Ctx, is128: bool, kemp: bool, st: &mut St, rng: &mut Rng, points: usize, all_t: bool) {
     // device configuration of this run: every port no enabled device decodes must float
@@ -558,10 +632,13 @@ pub fn run(ctx: &Ctx) -> Evidence {
         } else {
             let j = i - nconf;
             floating(ctx, j & 1 == 1, j & 2 == 2, &mut st, &mut rng, 20_000, fb_all);
+            for k in 0..ctx.scale(200, 5000) {
+                extender_history(ctx, j & 1 == 1, &mut st, &mut rng, (j as u64) << 32 | k);
+            }
         }
         st
     });
-    let mut ev = Evidence::new("all 65536 port addresses x {IN, OUT} (IN A,(C)/OUT (C),A, 1/16 sampled IN A,(n)/INI/OUT (n),A/OUTI) per configuration of {48K,128K} x Kempston on/off x mouse on/off x extender none/exact/random predicate; the byte read identifies the answering device (distinguishable device states), after every OUT border/AY/latch/lock/extender-log are diffed; floating bus: unclaimed ports read at sampled (thorough: all) frame T-states against the set oracle. distinct = (decode-relevant address bits, device) signatures judged");
+    let mut ev = Evidence::new("all 65536 port addresses x {IN, OUT} (IN A,(C)/OUT (C),A, 1/16 sampled IN A,(n)/INI/OUT (n),A/OUTI) per configuration of {48K,128K} x Kempston on/off x mouse on/off x extender none/exact/random predicate; the byte read identifies the answering device (distinguishable device states), after every OUT border/AY/latch/lock/extender-log are diffed; floating bus: unclaimed ports read at sampled (thorough: all) frame T-states against the set oracle; extender histories: install / replace / re-claim while one port is polled, every access judged against the claims in force. distinct = (decode-relevant address bits, device) signatures judged");
     let mut sigs = HashSet::new();
     for r in res {
         ev.evaluations += r.reads + r.writes + r.fb_points;
@@ -571,6 +648,7 @@ pub fn run(ctx: &Ctx) -> Evidence {
         ev.add_num("unjudged_multi_device", r.unjudged);
         ev.add_num("floating_bus_points", r.fb_points);
         ev.add_num("floating_bus_points_returning_data", r.fb_data_seen);
+        ev.add_num("extender_install_replace_reclaim_histories", r.ext_histories);
         sigs.extend(r.sigs);
         for s in r.sample {
             ev.sample(s);
